@@ -1083,7 +1083,9 @@ def parse(
             conn.commit()
         try:
             tree = pickle.loads(pickled_data)
-        except pickle.UnpicklingError:
+        except Exception:
+            # Besides pickle.UnpicklingError, a damaged or outdated entry can raise
+            # e.g. EOFError, AttributeError, TypeError, ... Fall back to parsing.
             logger.warning(f"Model with hash '{txt_hash}' ({pymoca_version}) failed to unpickle")
     else:
         logger.debug(f"Model with hash '{txt_hash}' ({pymoca_version}) not in cache")
